@@ -14,19 +14,40 @@ def failed(rc, out):
 
 def main():
     pid, k = sys.argv[1], sys.argv[2]
-    src = "/tmp/wtout/%s/%s" % (pid, k)
+    srcroot = sys.argv[3] if len(sys.argv) > 3 else "/tmp/wtout"
+    wtroot = sys.argv[4] if len(sys.argv) > 4 else "/tmp/wt"
+    src = "%s/%s/%s" % (srcroot, pid, k)
     dst = os.path.join(ROOT, "seeded", "%s-%s" % (pid, k))
     if os.path.isdir(src):
         shutil.rmtree(dst, ignore_errors=True)
         shutil.copytree(src, dst)
     meta = json.load(open(os.path.join(dst, "meta.json")))
-    demo = meta["demo_cmd"].replace(src, dst).replace("/tmp/wt/%s" % pid, "$WT")
+    demo = meta["demo_cmd"].replace(src, dst).replace("%s/%s" % (wtroot, pid), "$WT")
+    # demonstrations that are stand-alone modules point at the agent's worktree in their go.mod
+    for root, _, files in os.walk(dst):
+        for fn in files:
+            if fn == "go.mod":
+                fp = os.path.join(root, fn)
+                t = open(fp).read()
+                if "%s/%s" % (wtroot, pid) in t:
+                    open(fp, "w").write(t.replace("%s/%s" % (wtroot, pid), "WORKTREE_PLACEHOLDER"))
     meta["demo_cmd"] = demo
-    wt = "/tmp/wt/verify-%s-%s" % (pid, k)
+    wt = "/tmp/wtv/verify-%s-%s" % (pid, k)
+    os.makedirs("/tmp/wtv", exist_ok=True)
     sh("git -C /repo worktree remove --force %s" % wt)
     rc, out = sh("git -C /repo worktree add -q --detach %s HEAD" % wt)
     assert rc == 0, out
     res = {}
+    # point stand-alone demonstration modules at the verification worktree
+    patched = []
+    for root, _, files in os.walk(dst):
+        for fn in files:
+            if fn == "go.mod":
+                fp = os.path.join(root, fn)
+                t = open(fp).read()
+                if "WORKTREE_PLACEHOLDER" in t:
+                    open(fp, "w").write(t.replace("WORKTREE_PLACEHOLDER", wt))
+                    patched.append(fp)
     try:
         rc, out = sh("git apply %s/patch.diff" % dst, cwd=wt)
         res["applies_to_repo_head"] = rc == 0
@@ -52,6 +73,8 @@ def main():
                                     and res["demo_with_change_failed"] and not res["demo_without_change_failed"])
     finally:
         sh("git -C /repo worktree remove --force %s" % wt)
+        for fp in patched:
+            open(fp, "w").write(open(fp).read().replace(wt, "WORKTREE_PLACEHOLDER"))
     meta["confirmed_by_me"] = res
     json.dump(meta, open(os.path.join(dst, "meta.json"), "w"), indent=1)
     print(pid, k, "confirmed" if res.get("confirmed") else "NOT CONFIRMED", json.dumps({a: b for a, b in res.items() if "tail" not in a}))
